@@ -16,8 +16,8 @@ every batch and every measured value:
    way — each session that has a report gets exactly one notification (`groups_keys_nodup`, `mem_seids`), carrying exactly
    its own reports in message order (`groups_own`), nothing is lost or duplicated (`groups_total`), and what a session
    gets does not depend on the other sessions' reports (`groupOf_other`) nor on the order of notification.
-Known finding (recorded, see DESIGN.md §8): the destination is "<node id>:8805" resolved as udp4; for IPv6 or FQDN
-node ids nothing is sent — `unresolvable_node_drops` states exactly what the code does.
+`dest_total`, `non_ipv4_node_falls_back`: the destination is "<node id>:8805" resolved as udp4; for IPv6 or FQDN node ids
+(which do not resolve) the report goes to the address the node associated from — before the `fix:` commit it was dropped.
 -/
 import UpfVerif.Model.Core
 import UpfVerif.Model.Krep
@@ -32,11 +32,19 @@ theorem unknown_session_dropped (st : State) (x : Seid) (items : List RepItem) (
     (h : st.lnode.lookup x = none) : serveReport st x items c = (st, c) := by
   simp [serveReport, h]
 
-theorem unresolvable_node_drops (st : State) (x : Seid) (items : List RepItem) (c : Ctx) (s : Sess)
-    (h : st.lnode.lookup x = some s) (hn : reportDest (st.nodes.getD s.rnode default).id = none) :
-    serveReport st x items c = (st, c) := by
-  unfold serveReport
-  simp only [h, hn]
+/-- every node has a destination: the IPv4 node id's address, or — for an IPv6 / FQDN node id, which does not resolve as
+    udp4 — the address the node associated from (the `fix:` commit: such reports used to be dropped, and the buffered
+    packet with them) -/
+theorem dest_total (n : RNode) : ∃ d, reportDest n = some d := by
+  unfold reportDest
+  cases n.id <;> exact ⟨_, rfl⟩
+
+theorem non_ipv4_node_falls_back (n : RNode) (h : ∀ p, n.id ≠ .v4 p) : reportDest n = some n.addr := by
+  unfold reportDest
+  cases hid : n.id with
+  | v4 p => exact absurd hid (h p)
+  | v6 _ => rfl
+  | fqdn _ => rfl
 
 /-- the loop over a batch that consists of usage reports only just collects them, in order -/
 theorem serveLoop_usars (x : Seid) (dest : String) (rs : List Report) (st : State) (c : Ctx) (us : List Report) :
@@ -48,7 +56,7 @@ theorem serveLoop_usars (x : Seid) (dest : String) (rs : List Report) (st : Stat
 /-- a non-empty batch of usage reports for a live session of a resolvable node: exactly one Session Report
     Request to the owner, addressed with the peer's SEID, carrying the emitted IEs in order -/
 theorem usage_batch_delivery (st : State) (x : Seid) (rs : List Report) (c : Ctx) (s : Sess) (dest : String)
-    (h : st.lnode.lookup x = some s) (hd : reportDest (st.nodes.getD s.rnode default).id = some dest)
+    (h : st.lnode.lookup x = some s) (hd : reportDest (st.nodes.getD s.rnode default) = some dest)
     (hne : rs ≠ []) :
     (serveReport st x (rs.map RepItem.usar) c).2.outs =
       c.outs ++ [Out.send dest { kind := .srReq, seq := st.txSeq.setWidth 24, seid := some s.remoteID,
